@@ -1,4 +1,6 @@
 //! shred_verif harness: one binary, one sub-command per correspondence suite.
+#[cfg(feature = "parallel")]
+mod asynch;
 mod exec;
 mod hsys;
 mod plan;
@@ -28,6 +30,8 @@ fn main() {
         "meta" => meta_cmd(&args[2..]),
         #[cfg(feature = "parallel")]
         "parseq" => parseq_cmd(&args[2..]),
+        #[cfg(feature = "parallel")]
+        "async" => async_cmd(&args[2..]),
         _ => {
             eprintln!("usage: shred_verif <plan|...> [options]");
             std::process::exit(2);
@@ -276,6 +280,37 @@ fn parseq_cmd(args: &[String]) {
     for _ in 0..count {
         let mut r = rng.fork();
         let c = parseq::gen_case(&mut r, gen == "conflicts");
+        emit(&c, &mut out);
+    }
+}
+
+/// async --gen random --count N --seed S --shard i/n   |   async --cases FILE
+#[cfg(feature = "parallel")]
+fn async_cmd(args: &[String]) {
+    let stdout = std::io::stdout();
+    let mut out = std::io::BufWriter::new(stdout.lock());
+    let mut pools = std::collections::HashMap::new();
+    let mut emit = |c: &asynch::Case, out: &mut dyn Write| {
+        writeln!(out, "{} :: {}\t{}", c.head(), prog::to_text(&c.regs), asynch::observe(c, &mut pools)).unwrap();
+    };
+    if let Some(f) = arg(args, "--cases") {
+        let rd: Box<dyn BufRead> = Box::new(std::io::BufReader::new(std::fs::File::open(f).expect("cases file")));
+        for line in rd.lines() {
+            let line = line.unwrap();
+            let case = line.split('\t').next().unwrap().trim();
+            if case.is_empty() || case.starts_with('#') { continue; }
+            emit(&asynch::Case::parse(case), &mut out);
+        }
+        return;
+    }
+    let count: u64 = arg(args, "--count").map(|s| s.parse().unwrap()).unwrap_or(100);
+    let seed: u64 = arg(args, "--seed").map(|s| s.parse().unwrap()).unwrap_or(1);
+    let (si, _sn) = arg(args, "--shard").map(|s| { let (a, b) = s.split_once('/').unwrap(); (a.parse::<u64>().unwrap(), b.parse::<u64>().unwrap()) }).unwrap_or((0, 1));
+    let mut rng = Rng::new(seed.wrapping_mul(11_000_027).wrapping_add(si).wrapping_add(0xA57C));
+    for _ in 0..count {
+        let mut r = rng.fork();
+        let c = asynch::gen_case(&mut r);
+        if std::env::var("VERIF_TRACE_CASES").is_ok() { eprintln!("{} :: {}", c.head(), prog::to_text(&c.regs)); }
         emit(&c, &mut out);
     }
 }
